@@ -11,6 +11,7 @@ def register(db):
     register_wild(db)
     register_union_bind(db)
     register_pop_wrapper(db)
+    register_skip_node_scope(db)
     P = ["C15"]
     assume_method(db, "NodeParserObj", "start", raises=["ParserError", "ConverterError", "XmlContextError"])
     assume_method(db, "NodeParserObj", "end", returns="bool", raises=["ParserError", "ConverterError", "XmlContextError"])
@@ -153,4 +154,15 @@ def register_pop_wrapper(db):
         params={"self": node, "qname": "str"},
         ensures=[], raises={}, returns="str|None", properties=["C15", "C10"],
         note="the recorded wrapper names per child name are lists: popping from an exhausted one must not happen",
+    ))
+
+
+def register_skip_node_scope(db):
+    """A skipped (unknown, tolerated) subtree: the SkipNode on the queue must answer `.ns_map`, otherwise the next start
+    event inside that subtree ends in an AttributeError instead of being skipped (C15), for the native handler only."""
+    db.add(Contract(
+        "verif_harness:skip_node_scope", params={},
+        ensures=[("a-skipped-subtree-has-a-scope", "len(result) >= 0")],
+        raises={}, properties=["C15", "C10"],
+        note="harness over the real SkipNode constructor (inlined): reading ns_map of a fresh SkipNode raises nothing",
     ))
